@@ -137,6 +137,14 @@ Definition in_rangeb (m : Z) (d : Z) : bool := (0 <=? d)%Z && (d <? m)%Z.
 Definition empi_spec (m : Z) (data : list Z) (n : Z) : Z * list F :=
   (n, empi_of (counts (Z.to_nat m) (firstn (Z.to_nat n) data)) (Z.to_nat n)).
 
+(* well-formed request: measurement_num >= 0, sample sizes positive, strictly increasing, within the data, and the
+   data actually consumed (the longest requested prefix) inside [0, measurement_num) *)
+Fixpoint incr_from (prev : Z) (l : list Z) : Prop :=
+  match l with [] => True | x :: t => (prev < x)%Z /\ incr_from x t end.
+Definition empi_pre (m : Z) (data : list Z) (ns : list Z) : Prop :=
+  (0 <= m)%Z /\ incr_from 0%Z ns /\ Forall (fun n => (n <= Z.of_nat (length data))%Z) ns /\
+  Forall (fun d => (0 <= d < m)%Z) (firstn (Z.to_nat (last ns 0%Z)) data).
+
 (* ---- multinomial counts -> empirical distribution (sampling / num_sum) ---- *)
 Definition multi_to_empi (n : Z) (cnt : list Z) : Z * list F := (n, map (fun c => fz c / fz n) cnt).
 
